@@ -320,6 +320,8 @@ class PoolExec:
         if m:
             e = self.read(S, parse_place(m.group(1)))
             if e.kind != "enum":
+                if getattr(self, "havoc", False):
+                    return V("int", v=self.fresh("havoc_disc"))
                 return OPQ("discriminant of " + e.kind)
             return V("int", v=e.disc)
         m = re.match(r"(?:std::|core::)?(?:result::|option::)?(Option|Result)::<.*?>::(None|Some|Ok|Err)(?:\((.*)\))?$", text)
@@ -332,7 +334,7 @@ class PoolExec:
         if m:
             caps = [self.operand(S, x.split(": ", 1)[1]) for x in mirsmt.split_args(m.group(2))]
             return V("closure", name=m.group(1), caps=caps)
-        m = re.match(r"([A-Za-z_][\w:]*) \{(.*)\}$", text)
+        m = re.match(r"([A-Za-z_][\w:]*(?:::<.*?>)?) \{(.*)\}$", text)
         if m:
             fields = {}
             for k, x in enumerate(mirsmt.split_args(m.group(2))):
@@ -629,6 +631,8 @@ class PoolExec:
             m = re.match(r"switchInt\((.*)\) -> \[(.*)\]$", line)
             if m:
                 v = self.operand(S, m.group(1))
+                if v.kind not in ("int", "bool") and getattr(self, "havoc", False):
+                    v = V("int", v=self.fresh("havoc_branch"))
                 if v.kind not in ("int", "bool"):
                     raise Unsupported(f"branch on a {v.kind} value ({getattr(v, 'why', '')}) in {fn.name[-30:]} bb{bb}")
                 taken = []
